@@ -802,3 +802,12 @@ Lemma known_bad_sites : forall sch flt s o, known_bad sch flt s o = true ->
 Proof.
   intros sch flt s o H. unfold known_bad in H. destruct (o_taints (step sch flt s o)) as [|t r]; [discriminate | exists t; now left].
 Qed.
+
+(* the taints are exactly the nine named code sites *)
+Definition all_sites : list taint := [TSetBits; TSetIdx; TSetForward; TSetReverse; TRemFlag; TDelNested; TNewPk; TDelCreated; TInconsistent].
+Lemma sites_complete : forall sch flt s o, known_bad sch flt s o = true ->
+  exists t, In t (o_taints (step sch flt s o)) /\ In t all_sites.
+Proof.
+  intros sch flt s o H. destruct (known_bad_sites _ _ _ _ H) as [t Ht]. exists t. split; [assumption|].
+  destruct t; cbn; tauto.
+Qed.
